@@ -160,6 +160,10 @@ def c12(prog, rep):
 def c16(prog, rep):
     from . import tables as T
     T.rule_c16(prog, rep)
+    T.rule_b64_staging(prog, rep)
+    T.rule_query_split(prog, rep)
+    rep.floor('TB8', 1)
+    rep.floor('TB9', 2)
     rep.floor('TB1', 257)
     rep.floor('TB2', 64)
     rep.floor('TB3', 256)
@@ -215,6 +219,9 @@ def c01(prog, rep):
     from . import escape as E
     E.rule_r2(prog, rep, [T.UNIT])
     E.rule_r2_move(prog, rep, [T.UNIT])
+    E.rule_r2_fill(prog, rep, [T.UNIT])
+    T.rule_t6(prog, rep)
+    rep.floor('T6', 9)
     rep.floor('R2', 3)
     rep.floor('R2-move', 4)
     rep.floor('T1', 25)
